@@ -8,10 +8,16 @@
 (*   never examines are appended by the harness in every possible way).    *)
 (* Family 2: the format is one of F2 (a single directive, widths around    *)
 (*   the limits), fed to the same scanner byte by byte.                    *)
+(* Family 3: formats of 2 or 3 directives with widths from {none, 3, 03, -3, *)
+(*   -03, 12}, letters s f v %, literals between them, arguments of the    *)
+(*   right kind, short and long: a directive's width and zero flag must    *)
+(*   not reach a later directive.                                          *)
+(* Family 4: large fields (4096, 5000, 65536 bytes; several fields) and    *)
+(*   then the end of the format or an error of every kind.                 *)
 (* Every state is checked against the laws below; every finished call      *)
 (* (mode Done/Failed) is emitted as a vector.                              *)
 EXTENDS JqPrintf
-CONSTANTS MaxLen, MaxArgs, Family
+CONSTANTS MaxLen, MaxArgs, Family, Big
 
 Alphabet == {"%", "s", "f", "v", "d", "-", "0", "5", "x"}
 
@@ -25,8 +31,6 @@ Arg(kind, r, src) == [kind |-> kind, r |-> r, src |-> src]
 ArgVals == { Arg("str", <<"sa", "sb">>, "S"), Arg("str", <<"la", "lb", "lc", "ld", "le", "lf">>, "L"),
              Arg("num", <<"na">>, "N"), Arg("num", <<"ma", "mb", "mc", "md", "me", "mf">>, "M"),
              Arg("null", Chars("null"), "null"), Arg("arr", Chars("[1]"), "[1]") }
-\* candidates for the next argument: none once MaxArgs have been looked at
-NextArgs == IF Len(args) < MaxArgs THEN ArgVals \cup {NoArg} ELSE {NoArg}
 
 Widths == {"1", "2", "9", "10", "11", "4096", "65536", "65537", "4294967297", "18446744073709551617"}
 F2 == { pp[1] \o <<"%">> \o sg \o zr \o Chars(w) \o d \o pp[2] :
@@ -34,21 +38,58 @@ F2 == { pp[1] \o <<"%">> \o sg \o zr \o Chars(w) \o d \o pp[2] :
           sg \in { <<>>, <<"-">> }, zr \in { <<>>, <<"0">> }, w \in Widths,
           d \in { <<"s">>, <<"f">>, <<"v">>, <<"%">>, <<"d">>, <<>> } }
 
-VARIABLE rest    \* family 2: the part of the format not yet handed to the scanner
-vars == <<inp, args, mode, wneg, wzero, wval, buf, argi, out, writes, why, rest>>
+\* Family 3: formats with 2 or 3 directives, literals between them: each directive
+\* has a width text from W3 and a letter from D3 and gets an argument of the
+\* kind it wants (short and long relative to the widths), so every call
+\* succeeds and one directive's width / zero flag must not reach the next.
+\* The format grows one directive at a time (todo = directives still to come).
+W3 == {"", "3", "03", "-3", "-03", "12"}
+D3 == {"s", "f", "v", "%"}
+Specs3 == { Chars(w) \o <<d>> \o <<"x">> : w \in W3, d \in D3 }   \* what follows the '%'
+ByName(n) == CHOOSE a \in ArgVals : a.src = n
+
+\* Family 4: one or several LARGE fields and then the end of the format or an
+\* error of every kind: a failing call must not have written the large part.
+Big4 == { "%4096s", "%5000s", "%65536s", "%-5000s", "%05000s", "%3000s%3000s", "%4096s%4096s",
+          "x%5000sx%5000vx", "%2000s%2000s%2000s" }
+End4 == { "", "%s", "%f", "%d", "%", "%5", "%-", "%65537s", "x%sx" }
+F4 == { Chars(b) \o <<"x">> \o Chars(e) : b \in Big4, e \in End4 }
+
+VARIABLES rest,   \* families 2-4: the part of the format not yet handed to the scanner
+          todo,   \* family 3: directives still to be appended to the format
+          rich    \* family 3: long and short arguments (else short only)
+vars == <<inp, args, mode, wneg, wzero, wval, buf, argi, out, writes, why, rest, todo, rich>>
+
+\* candidates for the next argument when the scanner is handed byte c
+ArgsFor(c) ==
+  IF Len(args) >= MaxArgs THEN {NoArg}
+  ELSE IF Family \in {1, 2} THEN ArgVals \cup {NoArg}
+  ELSE IF Family = 3 THEN
+         (IF c = "s" THEN (IF rich THEN {ByName("S"), ByName("L")} ELSE {ByName("S")})
+          ELSE IF c = "f" THEN (IF rich THEN {ByName("N"), ByName("M")} ELSE {ByName("N")})
+          ELSE IF c = "v" THEN (IF rich THEN {ByName("S"), ByName("M"), ByName("[1]")} ELSE {ByName("S")})
+          ELSE {NoArg})
+  ELSE (IF c \in {"s", "f", "v"} THEN {ByName("S"), NoArg} ELSE {NoArg})
 
 Init == /\ PInit(<<>>)
-        /\ rest \in (IF Family = 1 THEN {<<>>} ELSE F2)
+        /\ rest \in (CASE Family = 1 -> {<<>>} [] Family = 2 -> F2 [] Family = 3 -> {<<"x">>} [] Family = 4 -> F4)
+        /\ todo \in (IF Family = 3 THEN {2, 3} ELSE {0})
+        /\ rich = (Big \/ todo = 2)
 
-Next == IF Family = 1
-        THEN \/ /\ Len(inp) < MaxLen
-                /\ \E c \in Alphabet : Step(c, NextArgs)
-                /\ UNCHANGED rest
-             \/ End /\ UNCHANGED rest
-        ELSE \/ /\ rest # <<>>
-                /\ Step(Head(rest), NextArgs)
-                /\ rest' = Tail(rest)
-             \/ rest = <<>> /\ End /\ UNCHANGED rest
+Next == /\ UNCHANGED rich
+        /\ IF Family = 1
+           THEN \/ /\ Len(inp) < MaxLen
+                   /\ \E c \in Alphabet : Step(c, ArgsFor(c))
+                   /\ UNCHANGED <<rest, todo>>
+                \/ End /\ UNCHANGED <<rest, todo>>
+           ELSE \/ /\ rest # <<>>
+                   /\ Step(Head(rest), ArgsFor(Head(rest)))
+                   /\ rest' = Tail(rest) /\ UNCHANGED todo
+                \/ /\ rest = <<>> /\ todo > 0          \* the format goes on with one more directive
+                   /\ Step("%", {NoArg})
+                   /\ \E sp \in Specs3 : rest' = sp
+                   /\ todo' = todo - 1
+                \/ rest = <<>> /\ todo = 0 /\ End /\ UNCHANGED <<rest, todo>>
 
 \* ------------------------------------------------------------------------
 \* Laws over every reachable state
@@ -138,7 +179,7 @@ EveryByteConsumed == [][ByteStep]_vars
 PolOf(k) == [v |-> (k % 2 = 1), pct |-> ((k \div 2) % 2 = 1), zneg |-> ((k \div 4) % 2 = 1)]
 Vec == mode \in Terminal =>
   LET base == OutRuns(PolOf(0)) IN
-  Emit([fmt |-> inp, args |-> [i \in 1..Len(args) |-> args[i].src],
+  Emit([fam |-> Family, fmt |-> inp, args |-> [i \in 1..Len(args) |-> args[i].src],
         cls |-> Class,
         outs |-> [k \in 1..8 |-> IF k > 1 /\ OutRuns(PolOf(k - 1)) = base THEN <<0>> ELSE OutRuns(PolOf(k - 1))],
         why |-> why])
